@@ -365,3 +365,52 @@ Definition e2e_restart_skipping (v : variant) (skip : list key) (w : world) : wo
                           (new_registry, [])) in
   fold_left (fun w ev => pppoe_terminate v (ipoe_terminate v w ev) ev) (snd acc)
             (mkW (fst acc) (w_ipoe w) (w_pp_key w) (w_pp_all w) (w_next w)).
+
+(* ---- the same system with an ASYNCHRONOUS bus and session teardown ----
+   Terminate events are queued when they are published and delivered later (events/local: a channel
+   and a dispatcher goroutine), so creations, teardowns and deliveries interleave freely.
+     ACreateI k : handleDiscover / handleRequest / handleDHCPv6Solicit on tuple k (claimTuple; event queued)
+     APadr k    : handlePADR (addToIndexes; every displaced session's eviction queued)
+     ADeliver   : the bus hands the oldest queued event to both components' handleSubscriberTerminate
+     APadt k    : PADT for the tuple's current PPPoE session (handlePADT -> removeFromIndexes -> Release)
+     AOperI k   : a terminate request (operator, lease expiry, ...) naming the tuple's IPoE session is published *)
+Record aworld := mkA { a_w : world; a_q : list (bytes * key) }.
+Definition aworld0 : aworld := mkA world0 [].
+
+Inductive a_op := ACreateI (k : key) | APadr (k : key) | ADeliver | APadt (k : key) | AOperI (k : key).
+
+Definition a_step (v : variant) (aw : aworld) (o : a_op) : aworld :=
+  let w := a_w aw in
+  match o with
+  | ACreateI k =>
+      match m_get k (w_ipoe w) with
+      | Some _ => aw
+      | None =>
+          let sid := ipoe_sid (w_next w) in
+          let (r', evs) := component_claim proto_ipoe (w_reg w) k sid in
+          mkA (mkW r' (m_set k (mkOwner proto_ipoe sid k) (w_ipoe w)) (w_pp_key w) (w_pp_all w) (N.succ (w_next w)))
+              (a_q aw ++ map (fun s => (s, k)) evs)
+      end
+  | APadr k =>
+      let sid := pppoe_sid (w_next w) in
+      let (r', evs) := site_claim (v_evict_pp v) proto_pppoe (w_reg w) k sid in
+      mkA (mkW r' (w_ipoe w) (m_set k (mkOwner proto_pppoe sid k) (w_pp_key w)) ((k, sid) :: w_pp_all w)
+               (N.succ (w_next w)))
+          (a_q aw ++ map (fun s => (s, k)) evs)
+  | ADeliver =>
+      match a_q aw with
+      | [] => aw
+      | ev :: q => mkA (pppoe_terminate v (ipoe_terminate v w ev) ev) q
+      end
+  | APadt k =>
+      match m_get k (w_pp_key w) with
+      | None => aw
+      | Some s => mkA (pppoe_terminate v w (o_sid s, k)) (a_q aw)
+      end
+  | AOperI k =>
+      match m_get k (w_ipoe w) with
+      | None => aw
+      | Some s => mkA w (a_q aw ++ [(o_sid s, k)])
+      end
+  end.
+Definition a_run (v : variant) (aw : aworld) (ops : list a_op) : aworld := fold_left (a_step v) ops aw.
